@@ -14,7 +14,8 @@ from . import c10
 ID = 'C12'
 RULE = ('cases = generated G-MAT settings incl. degenerate ones (no matrix anywhere / exactly one matrix / an empty pattern) '
         'and pattern-shaped families x candidate time limit {10 s, default 0.25 s, 0.05 s} x cache history {cold, warm in '
-        'the same process, warm written by a child process with another hash seed}; oracle = selection returns without '
+        'the same process, warm written by a child process with another hash seed, matrix cache first touched by a '
+        'per-pattern iteration}; oracle = selection returns without '
         'exception, the returned coding passes the C10 encoder checks (validity, fixed point, onto, listing) on the '
         'declared space (sampled above 400 vectors), <= 1 matrix overall => no design variables, cold / warm / '
         'other-process results agree on the design-variable list and on the decode table (and on the encoder name under '
@@ -38,7 +39,7 @@ def _case(draw, tier):
               'patterns': [{'src': {}, 'tgt': {}}]}
     mutate = draw(st.sampled_from(['deg', 'rep', 'excl', 'par', 'pattern']))
     return {'ms': ms, 'timeout': draw(st.sampled_from([10, 10, 0.25, 0.05])),
-            'history': draw(st.sampled_from(['cold_warm', 'cold_warm', 'child'])),
+            'history': draw(st.sampled_from(['cold_warm', 'cold_warm', 'child', 'partial_first'])),
             'mutate': [mutate, draw(st.integers(0, 50)), draw(st.integers(0, 50))], 'vseed': draw(st.integers(0, 9999))}
 
 
@@ -168,6 +169,12 @@ def check_case(case):
     n_eval = 0
     child_out = None
     try:
+        if case['history'] == 'partial_first' and len(exist_objs) >= 1:
+            # the matrix cache is first touched by an iteration over ONE existence pattern
+            g0 = AggregateAssignmentMatrixGenerator(matspec.to_settings(ms)[0])
+            k = case['vseed'] % len(exist_objs)
+            for _ in g0.iter_matrices(existence=matspec.to_settings(ms)[1][k]):
+                pass
         if case['history'] == 'child':
             env = dict(os.environ, PYTHONHASHSEED='12345',
                        PYTHONPATH=os.pathsep.join([build.repo_path(), VERIF]))
